@@ -421,6 +421,8 @@ class BaseOdeModel(object):
             raise InputError("Expecting a list")
 
         self._hasNewTransition.trip()
+        # the symbols handed to the compiler must include the new state
+        self.set_sp()
 
     @property
     def param_list(self):
@@ -455,6 +457,12 @@ class BaseOdeModel(object):
             raise InputError("Expecting a list")
 
         self._hasNewTransition.trip()
+        # the symbols handed to the compiler must include the new parameter,
+        # which has the value zero until it is given one
+        self.set_sp()
+        if isinstance(self._paramValue, list):
+            n_new = len(self._paramList) - len(self._paramValue)
+            self._paramValue = self._paramValue + [0]*n_new
 
     @property
     def derived_param_list(self):
